@@ -235,6 +235,10 @@ Met(e) ==
 OnEdge(e, I, J) ==
     /\ MinI(e[1][1], e[2][1]) <= I /\ I <= MaxI(e[1][1], e[2][1])
     /\ MinI(e[1][2], e[2][2]) <= J /\ J <= MaxI(e[1][2], e[2][2])
+\* closed box [x0,x1] x [y0,y1] (quad units) meets the closed axis-parallel edge e
+MeetsBox(e, x0, y0, x1, y1) ==
+    /\ x0 <= 4 * MaxI(e[1][1], e[2][1]) /\ x1 >= 4 * MinI(e[1][1], e[2][1])
+    /\ y0 <= 4 * MaxI(e[1][2], e[2][2]) /\ y1 >= 4 * MinI(e[1][2], e[2][2])
 LocalRuleTheorems(pcs, step) ==
     LET loops == RLoops(pcs, step)
         edges == Flatten([k \in 1..Len(loops) |-> LoopEdges(loops[k])])
@@ -242,12 +246,16 @@ LocalRuleTheorems(pcs, step) ==
               (VClass(pcs, I, J) = 2) <=> (\E k \in 1..Len(edges) : OnEdge(edges[k], I, J))
         /\ \A d \in -1..1 :
               LET n == IF d = -1 THEN S \div 2 ELSE IF d = 0 THEN S ELSE 2 * S
-                  f == IF d = -1 THEN 4 ELSE IF d = 0 THEN 2 ELSE 1   \* level-(G+1) cells per side
+                  w == IF d = -1 THEN 8 ELSE IF d = 0 THEN 4 ELSE 2
               IN  \A ci \in 0..(n - 1), cj \in 0..(n - 1) :
                       (CellClass(pcs, d, ci, cj) \in {2, 3, 4}) <=>
-                          \E k \in 1..Len(edges) :
-                              \E qi \in (2 * f * ci)..(2 * f * ci + 2 * f - 1), qj \in (2 * f * cj)..(2 * f * cj + 2 * f - 1) :
-                                  MeetsQuad(edges[k], qi, qj)
+                          \E k \in 1..Len(edges) : MeetsBox(edges[k], ci * w, cj * w, ci * w + w, cj * w + w)
+        \* the rectangle of level-(G+2) cells listed for an axis-parallel edge is exactly the set
+        \* of cells whose closed square meets it
+        /\ \A k \in 1..Len(edges) :
+              LET r == Met(edges[k])[1]
+              IN  \A ci \in MaxI(0, r[2] - 1)..MinI(4 * S - 1, r[3] + 1), cj \in MaxI(0, r[4] - 1)..MinI(4 * S - 1, r[5] + 1) :
+                      MeetsQuad(edges[k], ci, cj) <=> (r[2] <= ci /\ ci <= r[3] /\ r[4] <= cj /\ cj <= r[5])
 
 (***************************************************************************)
 (* Query segments for CrossingEdgeQuery: axis-parallel segments between    *)
